@@ -1,5 +1,6 @@
 //! Reference models and independent recognisers (never call the code under test).
 pub mod civil;
+pub mod codec;
 pub mod did_syntax;
 pub mod doc_model;
 pub mod faulty_store;
